@@ -99,7 +99,17 @@ func ocraGen(c c05Case) (obs, bad string) {
 	return obs, ""
 }
 
-var suiteTexts = []string{"", "x", "OCRA-1:HOTP-SHA1-6:QN08", strings.Repeat("suite-text-", 28), "a\x00b"}
+var suiteTexts = []string{"", "x", "OCRA-1:HOTP-SHA1-6:QN08", strings.Repeat("suite-text-", 28), "a\x00b",
+	// bytes >= 0x80: well-formed multi-byte UTF-8, lone continuation / lead bytes, every byte value once
+	"Caf\u00e9-1:HOTP-SHA1-6:QN08", "\u20ac\U0001F511", "\xe9", "OCRA-1\xff\xfe:\x80", allBytes}
+
+var allBytes = func() string {
+	b := make([]byte, 256)
+	for i := range b {
+		b[i] = byte(255 - i)
+	}
+	return string(b)
+}()
 
 func c05(r *ev.Run) {
 	r.Scenario("ocra-generate", func(raw []byte) (string, string) { return ocraGen(unjson[c05Case](raw)) })
